@@ -118,6 +118,9 @@ def groups(line):
     return out
 
 
+CDATA_RNG = None
+
+
 def ser_xml_like(lines, rng, fmt):
     named = XML_NAMED if fmt == "dfxp" else HTML_NAMED
     parts = []
@@ -128,28 +131,36 @@ def ser_xml_like(lines, rng, fmt):
         segs = []
         for gi, (s, ws) in enumerate(groups(line)):
             toks = [spell(w, rng, named) for w in ws]
+            is_cd = [False] * len(ws)
+            if fmt == "dfxp" and CDATA_RNG is not None:
+                # XML only: a word authored inside a CDATA section is character data like any other
+                is_cd = [("]]>" not in w and CDATA_RNG.random() < 0.06) for w in ws]
+                toks = [("<![CDATA[%s]]>" % w) if cd else tk for w, tk, cd in zip(ws, toks, is_cd)]
             txt = toks[0]
             # a run of plain words right after an inline element is wrapped more often (the blank between the element
             # and the run is then the leading blank of a multi-line text leaf)
             pw = 0.6 if (gi > 0 and s is None) else 0.25
-            for t in toks[1:]:
-                if rng.random() < pw:
-                    txt += rng.choice(["\n", "\n     ", "\r\n   ", "  \n\t"]) + t; wrapped = True
+            for k_, t_ in enumerate(toks[1:], 1):
+                # (no source wrap directly next to a CDATA section: a section is a node of its own, and a wrap next to a node
+                # boundary is the known finding C04-wrap-next-to-inline-element)
+                if rng.random() < pw and not (is_cd[k_] or is_cd[k_ - 1]):
+                    txt += rng.choice(["\n", "\n     ", "\r\n   ", "  \n\t"]) + t_; wrapped = True
                 else:
-                    txt += " " + t
+                    txt += " " + t_
             if s is None:
-                segs.append(txt)
+                segs.append((txt, is_cd[0], is_cd[-1]))
             elif fmt == "dfxp":
                 attr = {"i": 'tts:fontStyle="italic"', "b": 'tts:fontWeight="bold"', "u": 'tts:textDecoration="underline"'}[s]
-                segs.append('<span %s>%s</span>' % (attr, txt))
+                segs.append(('<span %s>%s</span>' % (attr, txt), False, False))
             else:
-                segs.append("<%s>%s</%s>" % (s, txt, s))
+                segs.append(("<%s>%s</%s>" % (s, txt, s), False, False))
         # between two runs of a line: a blank, a source line wrap (the line break and indentation of pretty-printed
         # markup next to an inline element), or a comment with blanks around it -- all of them one word boundary on display
-        line_txt = segs[0]
-        for sg in segs[1:]:
+        line_txt = segs[0][0]
+        for si_ in range(1, len(segs)):
+            sg = segs[si_][0]
             r = rng.random()
-            if r < 0.8:
+            if r < 0.8 or segs[si_][1] or segs[si_ - 1][2]:
                 line_txt += " " + sg
             elif r < 0.92:
                 line_txt += rng.choice(["\n", "\n     ", "\r\n   "]) + sg; wrapped = True
@@ -227,6 +238,8 @@ def doc_vtt(caps, rng, numeric=False):
 
 def explore(chk):
     import pycaption
+    global CDATA_RNG
+    CDATA_RNG = chk.sub("dfxp_cdata")
     rng = chk.rng
     N = 500 if chk.tier == "quick" else 15000
     b = core.Batch()
